@@ -20,6 +20,10 @@ import (
 // chunks are stored; after a file is deleted no availability, discovery or
 // source record for it remains, in memory or persisted.
 
+// one more crash point than any delete of the universe has state-store units (observed maximum: 4);
+// reaching the last point means a delete has more units than modelled -> the check reports itself broken
+const c17MaxCrashUnits = 5
+
 type c17Op struct {
 	name, kind, file, chunk string
 }
@@ -85,7 +89,8 @@ func TestVerifC17(t *testing.T) {
 		order[f.Name] = c17DataOrder(u, f)
 	}
 	self := nodelite.SelfAddr.String()
-	mc.Run(t, mc.Config{ID: "C17", Name: "C17-availability-records", MaxDev: -1, Params: map[string]interface{}{
+	mc.Run(t, mc.Config{ID: "C17", Name: "C17-availability-records", MaxDev: 1, Params: map[string]interface{}{
+		"crash_points": fmt.Sprintf("every delete may be interrupted after 0..%d state-store durability units (then restart); at most one crash per execution", c17MaxCrashUnits-1),
 		"depth": depth, "alphabet": opNames, "files": letters, "chunk_size": boson.ChunkSize, "capacity": 1000,
 		"checked_after_every_step": "self bit vector of every tracked file vs. local presence of its data chunks; isDownload; records of deleted files (tables, getters, raw state store keys)",
 	}}, func(x *mc.X) {
@@ -215,9 +220,34 @@ func TestVerifC17(t *testing.T) {
 			case "restart":
 				out = c13Err17(n.Restart())
 			case "delete":
+				// fault dimension: the node may die inside the delete. k = 0: no crash; k >= 1: the first
+				// k-1 state-store durability units of the operation (record removals; single Put/Delete or
+				// batch commit) are applied — together with everything the chunk store wrote before them,
+				// i.e. the handler's chunk removals — the next one and all later writes are lost, then the
+				// node restarts on the surviving images (prefix-of-write-log model; one crash per execution).
+				k := x.Deviate(1 + c17MaxCrashUnits)
+				if k > 0 {
+					n.ArmStateStoreCrash(k - 1)
+				}
 				c := n.DeleteAPI(f.Root)
 				out = fmt.Sprint(c)
-				if c == 200 {
+				crashed := false
+				if k > 0 {
+					var units int
+					crashed, units = n.EndCrashEpisode()
+					if crashed && k == c17MaxCrashUnits {
+						x.Broken("a delete has more than %d state-store units: raise c17MaxCrashUnits", c17MaxCrashUnits-1)
+					}
+					if crashed {
+						out = fmt.Sprintf("%d, node died after %d state-store unit(s) of the delete; restarted", c, k-1)
+						x.Tag("delete-interrupted-by-crash")
+						x.Nontrivial()
+						x.NoErr(n.Restart(), "restart after crash")
+					} else {
+						out = fmt.Sprintf("%d (crash point %d not reached: the delete has %d state-store units)", c, k-1, units)
+					}
+				}
+				if c == 200 && !crashed {
 					deleted[o.file] = true
 					x.Tag("file-deleted")
 					x.Nontrivial()
